@@ -112,6 +112,26 @@ func mk(k int) I0 {
 	return E0(k)
 }
 
+func upto(n int) func(func(int) bool) {
+	return func(yield func(int) bool) {
+		for i := 0; i < n; i++ {
+			if !yield(i) {
+				return
+			}
+		}
+	}
+}
+
+func each(s []int) func(func(int, int) bool) {
+	return func(yield func(int, int) bool) {
+		for i, x := range s {
+			if !yield(i, x) {
+				return
+			}
+		}
+	}
+}
+
 func anyOf(k int) any {
 	switch k & 3 {
 	case 0:
@@ -895,13 +915,27 @@ class FnGen:
             self.declare(Var(x, "int", private=priv, assignable=True))
             self.lines.append(None)  # placeholder replaced below
             self.lines.pop()
-        elif k < 80:
+        elif k < 76:
             c = self.vars_of("string")
             i, x = self.fresh("i"), self.fresh("c")
             src = r.choice(c).name if c and r.chance(3, 4) else go_str(r.choice(STR_POOL))
             hdr = "for %s, %s := range %s {" % (i, x, src)
             self.declare(Var(i, "int", private=priv, assignable=False))
             self.declare(Var(x, "int32", private=priv, assignable=True))
+        elif k < 86:
+            # range over func: the body becomes a synthesized yield function
+            c = self.vars_of("[]int")
+            if c and r.chance(1, 3):
+                sv = r.choice(c)
+                sv.aliased = True
+                i, x = self.fresh("i"), self.fresh("x")
+                hdr = "for %s, %s := range each(%s) {" % (i, x, sv.name)
+                self.declare(Var(i, "int", private=priv, assignable=False))
+                self.declare(Var(x, "int", private=priv, assignable=True))
+            else:
+                i = self.fresh("i")
+                hdr = "for %s := range upto(%d) {" % (i, 1 + r.below(4))
+                self.declare(Var(i, "int", private=priv, assignable=False))
         else:
             # while-style loop with a fuel counter
             i = self.fresh("w")
@@ -1684,10 +1718,11 @@ def make_run(prog, pkg):
 
 MODES = ["N", "L", "ND", "LD"]
 MAXSTEPS = 400000
+MAXSTEPS_RETRY = 60000000
 
 
-def case_line(mode, fname, vec):
-    return ("RUN %s %s %d %s" % (mode, vlib.hexs("main." + fname), MAXSTEPS, " ".join(lean_arg(k, v) for k, v in vec))).rstrip()
+def case_line(mode, fname, vec, steps=None):
+    return ("RUN %s %s %d %s" % (mode, vlib.hexs("main." + fname), steps or MAXSTEPS, " ".join(lean_arg(k, v) for k, v in vec))).rstrip()
 
 
 def show_case(c):
@@ -2263,6 +2298,14 @@ def ir_side(ctx, dumpbin, pdir, pr):
         if any(v == "bad-op" for v in by_mode.values()):
             raise vlib.HarnessError("c01driver rejects RUN line of %s %s" % (pr.name, show_case(c)))
         by_case.append(by_mode)
+    # out of budget: once more with a budget no terminating generated/corpus program comes near; what
+    # still does not finish is a divergence from the compiled program (which did terminate)
+    again = [(ci, m) for ci, bm in enumerate(by_case) for m, v in bm.items() if "|FUEL|" in v]
+    if again:
+        l2 = list(dump) + [case_line(m, pr.cases[ci][0], pr.cases[ci][3], MAXSTEPS_RETRY) for (ci, m) in again]
+        o2 = run_driver(l2, timeout=3000)[nd:]
+        for (ci, m), v in zip(again, o2):
+            by_case[ci][m] = v.replace("|FUEL|", "|NOTERM after %d instructions|" % MAXSTEPS_RETRY)
     lo = out[nd + len(pr.modes) * nc:]
     lift, li = [], 0
     for (mN, mL, name, st, line, info) in jobs:
@@ -2310,6 +2353,8 @@ def stage_a(ctx, dumpbin, progs, tag, workers=6, batch=40):
 MODULES = ["Verif.C01.Theorems"]
 THEOREMS = [
     "Verif.C01.lift_validator_sound_partial",
+    "Verif.C01.program_lift_sound_partial",
+    "Verif.C01.Core.semD_eq",
     "Verif.C01.Core.run_sim",
     "Verif.C01.Core.walk_sound",
     "Verif.C01.Core.enter_sound",
@@ -2377,7 +2422,7 @@ def run(ctx):
     else:
         nvec = 6 if ctx.quick else 8
         corpus = load_corpus(nvec)
-        nprog = 6 if ctx.quick else 150
+        nprog = 5 if ctx.quick else 90
         rng = vlib.SplitMix(ctx.seed)
         gen = [program_from_seed("gen%d" % i, rng.fork("prog%d" % i).s, nvec) for i in range(nprog)]
     t0 = time.time()
@@ -2541,8 +2586,29 @@ def finding_key(pr, fname, obj):
 
 META = {
     "level": "translation_validation",
-    "technique": "differential execution: Lean reference interpreter of go/ir dumps vs the Go toolchain",
-    "text": "wip",
-    "note": "wip",
+    "technique": "Lean 4: reference interpreter of dumped go/ir + proved lift validator (naive vs lifted form of every built function); "
+                 "differential execution against the Go toolchain on generated and corpus programs",
+    "text": "Per produced function (translation validation), not for the 3.6 kLoC builder as such. "
+            "(b) lifted == naive: the real builder's IR of every function of every explored program is dumped in naive and lifted form "
+            "(x debug refs off/on) through the exported go/ir API and abstracted into a core calculus (non-escaping Allocs = private cells, "
+            "everything else opaque operations); the Lean decision procedure Core.liftCheck checks a register relation + per-block "
+            "certificate (both inferred by untrusted Python), and the kernel-checked theorem lift_validator_sound_partial says that an "
+            "accepted pair has equal results, panic outcome and final world for ALL inputs, worlds, block budgets and ALL meanings of "
+            "the non-lifted instructions; program_lift_sound_partial closes this under calls of any depth. `_partial`: functions in which "
+            "lift.go split a partially escaping Alloc (about a quarter of the generated functions) or lifted an Alloc only after an earlier "
+            "round removed its escaping use are outside the validated fragment and are reported as skip-*; the abstraction function is trusted. "
+            "(a) naive/lifted IR == compiled program: EXPLORED, not proved - every entry function of seeded type-correct programs "
+            "(ints of all widths, bools, strings, arrays/slices, structs, pointers incl. address-taken locals escaping on some paths, closures, "
+            "methods, interfaces/type switches, if/for/range over int, slice, string and func/switch/fallthrough/goto/labelled break+continue, "
+            "defer/recover with named results, multi-value returns) and of a hand-written corpus (generics in the InstantiateGenerics modes, "
+            "method values/expressions, embedding, conversions, composite literals, evaluation order, ...) is run on input vectors both compiled by "
+            "the Go toolchain and interpreted from the four dumps by the Lean reference interpreter (instruction semantics = the doc comments of "
+            "go/ir/ssa.go); results, panic class, order of observer calls and final globals must agree. Arithmetic of the interpreter "
+            "(two's complement wrap-around, division/shift panics) is proved to be Go's. CFG simplification is only covered by (a).",
+    "note": "Trusted: Lean kernel (axioms propext/Classical.choice/Quot.sound), compiled c01driver (interpreter + validator evaluation), "
+            "Abstract.toCore (dump -> core calculus), harness/cmd/c01dump + Parse.lean, checks/c01.py, the Go toolchain as reference semantics. "
+            "The quantifier over programs is sampled (generator + corpus), the quantifier over inputs is proved for (b) on validated functions "
+            "and sampled for (a). Generic bodies are executable only with ir.InstantiateGenerics; maps, channels, select, goroutines, floats are "
+            "outside the executable subset (SKIP, counted).",
     "design_ref": "DESIGN.md section 5, C01",
 }
